@@ -131,11 +131,22 @@ def _ev_const(e, subst):
             if v:
                 break
         return r
-    if isinstance(e, ast.BinOp) and isinstance(e.op, (ast.Add, ast.Sub)):
+    if isinstance(e, ast.BinOp) and isinstance(e.op, (ast.Add, ast.Sub, ast.LShift, ast.RShift, ast.BitOr, ast.BitAnd, ast.Mult, ast.FloorDiv, ast.Mod)):
         a, b = _ev_const(e.left, subst), _ev_const(e.right, subst)
-        if not isinstance(a, (int, float)) or not isinstance(b, (int, float)):
+        if not isinstance(a, (int, float)) or not isinstance(b, (int, float)) or isinstance(a, bool) or isinstance(b, bool):
             raise _Unknown()
-        return a + b if isinstance(e.op, ast.Add) else a - b
+        if isinstance(e.op, ast.Add): return a + b
+        if isinstance(e.op, ast.Sub): return a - b
+        if isinstance(e.op, ast.Mult): return a * b
+        if not isinstance(a, int) or not isinstance(b, int):
+            raise _Unknown()
+        if isinstance(e.op, ast.LShift): return a << b
+        if isinstance(e.op, ast.RShift): return a >> b
+        if isinstance(e.op, ast.BitOr): return a | b
+        if isinstance(e.op, ast.BitAnd): return a & b
+        if b == 0:
+            raise _Unknown()
+        return a // b if isinstance(e.op, ast.FloorDiv) else a % b
     if isinstance(e, ast.Compare):
         left = _ev_const(e.left, subst)
         for op, c in zip(e.ops, e.comparators):
